@@ -332,7 +332,7 @@ def rule_c(ctx):
              '' if ok else 'skipped handler derives state from the rebound field: '
              + ', '.join(f'{c}.{h} reads self.{fld}' for fld, c, h in bad[:4]),
              None if ok else bad[:10])
-  if n_sites < 8:
+  if n_sites < 4:
     raise AnalysisError(f'C09.c found only {n_sites} skip-notification sites')
 
 
